@@ -4,6 +4,8 @@ Classes (DESIGN 4.4): element map (strided region writes), counter (x' = x + c),
 last-value (x' independent of carried state), recurrence (x' = g(x, input_i)).
 Anything else raises Undecided.
 """
+import re
+
 from .lin import Lin, lin, ZERO, ONE, neg_cond, Facts
 Facts_EMPTY = Facts()
 from . import terms as T
@@ -697,6 +699,7 @@ def _summarise_core(ip, st, fr, H, N, var, affine, region, cont, runner, is_iter
         return vsub(val, venv, lenv, Fi)
 
     n_ge1 = st.F.prove_ge(N - 1)
+    int_affine = {}    # placeholder name -> (start, step) of an integer that advances by a constant
     while pending and progress:
         progress = False
         for loc in list(pending):
@@ -769,6 +772,7 @@ def _summarise_core(ip, st, fr, H, N, var, affine, region, cont, runner, is_iter
                         step = d
                         V[loc] = vint(T.iadd(pre[loc][1], _imul_size(step, v, w)))
                         final[loc] = vint(T.iadd(pre[loc][1], _imul_size(step, N, w)))
+                        int_affine[own] = (pre[loc][1], step)
                         pending.remove(loc)
                         progress = True
                         continue
@@ -808,7 +812,7 @@ def _summarise_core(ip, st, fr, H, N, var, affine, region, cont, runner, is_iter
     # 6. post state
     sp = st
     for s in outs:
-        sp.oblig.extend(s.oblig[o0:])
+        sp.oblig.extend(_counter_overflow(o, int_affine) for o in s.oblig[o0:])
     ev = []
     for s in outs:
         ev.extend(s.events[e0:])
@@ -851,6 +855,30 @@ def _summarise_core(ip, st, fr, H, N, var, affine, region, cont, runner, is_iter
     if key is not None:
         sp.loopmode[key] = ("done",)
     return [sp]
+
+
+_OVF = re.compile(r"^\('not', \('opaque', 'int-overflow', '\[(\$ph\d+)\]u(\d+)', '\[(\d+)\]u(\d+)'\)\)$")
+
+
+def _counter_overflow(o, int_affine):
+    """`n += k` on a loop-carried integer wider than usize, recorded with the placeholder of the value
+    at the start of an arbitrary iteration: once the counter is solved as start + step*index with small
+    constant start and step, start + step*index + k < 2^32 + 2^32*2^64 + 2^32 < 2^w for w >= 128
+    (the index is a usize), so the debug-build overflow assertion cannot fire."""
+    if o.get("ok") or o.get("kind") != "assert:Overflow":
+        return o
+    m = _OVF.match(o.get("detail", ""))
+    if not m or m.group(1) not in int_affine:
+        return o
+    start, step = int_affine[m.group(1)]
+    w = int(m.group(2))
+    if w < 128 or int(m.group(4)) != w or start[1] != w or start[3] or step[3]:
+        return o
+    if start[2] < (1 << 32) and step[2] < (1 << 32) and int(m.group(3)) < (1 << 32):
+        o = dict(o)
+        o["ok"] = True
+        o["detail"] += " [loop counter start + step*index: below 2^%d]" % w
+    return o
 
 
 def _imul_size(step, cnt, w):
